@@ -692,3 +692,56 @@ silent('c09-no-debug-logs', 'C09',
        [(POL, "            LOG.debug('Searching old policy.json file.')\n", "")])
 silent('c09-changed-init-false', ['C09', 'C10'],
        [(POL, "        policy_file_rules_changed = False\n\n        if self.use_conf:", "        policy_file_rules_changed = None\n\n        if self.use_conf:")])
+
+# ------------------------------------------------------------------ C10
+fire('c10-revert-f3', 'C10',
+     [(POL, """    if not data:
+        # NOTE: a policy file that is empty or has disappeared (the file
+        # cache hands out an empty mapping in that case) defines no rules.
+        return {}
+""", "")], 'C10.TYPE-AGREE')
+fire('c10-reset-only-rules', 'C10',
+     [(POL, "                    self.rules = Rules(default_rule=self.default_rule)\n                    self.file_rules = {}",
+       "                    self.rules = Rules(default_rule=self.default_rule)")], 'C10.RESET')
+fire('c10-reset-only-file', 'C10',
+     [(POL, "                    self.rules = Rules(default_rule=self.default_rule)\n                    self.file_rules = {}",
+       "                    self.file_rules = {}")], 'C10.RESET')
+fire('c10-elif-false', 'C10',
+     [(POL, "                elif self.overwrite:\n                    self.rules = Rules(", "                elif False:\n                    self.rules = Rules(")], 'C10.RESET')
+fire('c10-no-main-reload', 'C10',
+     [(POL, "                    if not policy_file_rules_changed and self.overwrite:", "                    if False:")], 'C10.RESET')
+fire('c10-record-no-reset', 'C10',
+     [(POL, "        if overwrite:\n            self.file_rules = {}\n        parsed_file", "        parsed_file")], 'C10.PAIR')
+fire('c10-record-other-mode', 'C10',
+     [(POL, "            self._record_file_rules(data, overwrite)", "            self._record_file_rules(data)")], 'C10.PAIR')
+fire('c10-dir-mtime-no-self', 'C10',
+     [(POL, "            files = [path] + [os.path.join(path, file) for file in\n                              os.listdir(path)]",
+       "            files = [os.path.join(path, file) for file in\n                     os.listdir(path)] or [path]")], 'C10.DIR-MTIME')
+fire('c10-defaults-only-on-change', 'C10',
+     [(POL, "            for default in self.registered_rules.values():\n                if default.deprecated_for_removal:",
+       "            for default in (self.registered_rules.values()\n                            if force_reload_policy_dirs else []):\n                if default.deprecated_for_removal:")], 'C10.DEFAULTS')
+fire('c10-enforce-no-load', 'C10',
+     [(POL, "        self.load_rules()\n\n        if isinstance(creds, context.RequestContext):", "        if not self.rules:\n            self.load_rules()\n\n        if isinstance(creds, context.RequestContext):")], 'C10.LOAD-FIRST')
+fire('c10-cache-ge', 'C10',
+     [(CH, "    if not cache_info or mtime > cache_info.get('mtime', 0):", "    if not cache_info or mtime < cache_info.get('mtime', 0):")], 'C10.STALE')
+fire('c10-force-no-delete', 'C10',
+     [(CH, "    if force_reload:\n        delete_cached_file(cache, filename)\n", "")], 'C10.STALE')
+fire('c10-reapply-ignores-main-change', 'C10',
+     [(POL, "            if policy_file_rules_changed:\n                force_reload_policy_dirs = True\n", "")], 'C10.REAPPLY')
+fire('c10-reapply-ignores-dir-update', 'C10',
+     [(POL, "                if self._is_directory_updated(self._policy_dir_mtimes,\n                                              absolute_path):\n                    force_reload_policy_dirs = True",
+       "                if self._is_directory_updated(self._policy_dir_mtimes,\n                                              absolute_path):\n                    pass")], 'C10.REAPPLY')
+fire('c10-stored-mtime-zero', 'C10',
+     [(CH, "        cache_info['mtime'] = mtime\n        reloaded = True", "        cache_info['mtime'] = 0\n        reloaded = True")], 'C10.STALE')
+silent('c10-cache-drop-operand', 'C10',
+       [(CH, "    if not cache_info or mtime > cache_info.get('mtime', 0):", "    if mtime > cache_info.get('mtime', 0):")])
+silent('c10-cache-default-one', 'C10',
+       [(CH, "    if not cache_info or mtime > cache_info.get('mtime', 0):", "    if not cache_info or mtime > cache_info.get('mtime', 1):")])
+silent('c10-663-drop-overwrite', ['C10', 'C09'],
+       [(POL, "                    if not policy_file_rules_changed and self.overwrite:", "                    if not policy_file_rules_changed:")])
+silent('c10-663-if-true-variant', ['C10', 'C09'],
+       [(POL, "                    if not policy_file_rules_changed and self.overwrite:", "                    if self.overwrite and not policy_file_rules_changed:")])
+silent('c10-mtime-init', 'C10',
+       [(POL, "        mtime = 0\n        if os.path.exists(path):", "        mtime = -1\n        if os.path.exists(path):")])
+silent('c10-rules-changed-init', ['C10'],
+       [(POL, "        rules_changed = False\n        reloaded, data", "        rules_changed = bool(0)\n        reloaded, data")])
